@@ -544,6 +544,9 @@ def run(tier, seed):
     parts.append(("degenerate inputs (outside the guard)",
                   hv.campaign(degenerate_cases(rng, 3000 if tier == "quick" else 40000), oracle_c13, max_report=50)))
     parts.append(("inside tx blocks", hv.campaign(block_cases(rng, 500 if tier == "quick" else 5000), None)))
+    from props import c08
+    parts.append(("kernels after edits of their face in the same transaction (convex polygons must still be accepted)",
+                  hv.campaign(c08.tri_programs(800 if tier == "quick" else 8000, rng), c08.oracle_c08k, max_report=20)))
     res = hv.merge_results(parts)
     res["stats"]["by_family_kernel_outcome"] = {"/".join(k): v for k, v in sorted(STATS.items())}
     res["violations"] = dedupe(res["violations"])
